@@ -119,12 +119,12 @@ class Gen:
         if k < 0.18:
             return {"res": "sys", "fee": "0", "transfers": [], "writes": []}
         if k < 0.21:
-            return {"res": "sys", "fee": "0", "transfers": [[str(r.choice(self.users + [30])), "1"]],
+            return {"res": "sys", "fee": "0", "transfers": [[str(r.choice(self.users + [30])), "1"]] if r.random() < 0.5 else [],
                     "writes": [[1, 9]] if self._ck(cid_or_to, 1) else []}
         if k < 0.25:
             # negative execution fee: Execute returns ErrVmStart (non-runtime) AFTER the VM has already
             # credited third parties / written storage -> only the executor's rollback removes them
-            return {"res": "ok", "fee": "-5", "transfers": [[str(r.choice(self.users + [30])), str(r.choice([1, 5000]))]],
+            return {"res": "ok", "fee": "-5", "transfers": [[str(r.choice(self.users + [30])), str(r.choice([1, 5000]))]] if r.random() < 0.5 else [],
                     "writes": [[1, 7]] if self._ck(cid_or_to, 1) else []}
         trs = []
         for _ in range(r.choice([0, 0, 1, 1, 2])):
@@ -706,6 +706,39 @@ def corpus_cases(pid):
                       dict(T("call", 10, 2, to=100, plen=5), vm={"res": "ok", "fee": "-5", "transfers": [["11", "2"]], "writes": [[2, 5]]}),
                       dict(T("call", 11, 2, to=100, plen=5), vm={"res": "ok", "fee": "0", "transfers": [], "writes": [[3, 4]]})]}],
          "staged", cids={"100": [10, 1]}, ids=[1, 2, 3, 10, 11, 12, 30, 100], ckeys=[[100, 1], [100, 2], [100, 3]])
+    # same, but the failing calls touch NO account before failing (storage writes only: the account-buffer
+    # revision does not move), amount 0, on a storage staged earlier in the block
+    case("exec", [{"no": 5, "validator": False, "txs": [dict(T("deploy", 10, 1, amount=str(5 * AERGO), plen=10, cid=100), vm=vmok(0))]},
+                  {"no": 6, "validator": False, "txs": [
+                      dict(T("call", 11, 1, to=100, plen=5), vm=vmok(0)),
+                      dict(T("call", 10, 2, to=100, plen=5), vm={"res": "sys", "fee": "0", "transfers": [], "writes": [[1, 9]]}),
+                      dict(T("call", 11, 2, to=100, plen=5), vm={"res": "ok", "fee": "-5", "transfers": [], "writes": [[2, 5]]}),
+                      dict(T("feedeleg", 11, 2, to=100, plen=5), vm={"res": "sys", "fee": "0", "transfers": [], "writes": [[3, 4]]})]},
+                  {"no": 7, "validator": False, "txs": [dict(T("call", 11, 2, to=100, plen=5), vm=vmok(0))]}],
+         "staged2", cids={"100": [10, 1]}, ids=[1, 2, 3, 10, 11, 12, 30, 100], ckeys=[[100, 1], [100, 2], [100, 3]])
+    # nonce GAPS (nonce = current + 2) on transactions of every kind that would otherwise succeed: only a
+    # faulty producer's block contains them; every one must be rejected and the account nonce must not jump
+    gap_setup = [{"no": 10, "validator": False, "txs": [
+        dict(T("deploy", 10, 1, amount=str(5 * AERGO), plen=10, cid=100), vm=vmok(0)),
+        T("stake", 10, 2, amount=str(10000 * AERGO)), T("stake", 11, 1, amount=str(10000 * AERGO)),
+        T("namecreate", 11, 2, name=200, amount=str(AERGO))]}]
+    gaps = [T("transfer", 12, 2, to=10, amount="5"),
+            dict(T("call", 12, 2, to=100, plen=5), vm=vmok(0)),
+            dict(T("deploy", 12, 2, plen=10, cid=101), vm=vmok(0)),
+            dict(T("feedeleg", 12, 2, to=100, plen=5), vm=vmok(0)),
+            T("unstake", 10, 4, amount=str(10000 * AERGO)),
+            T("stake", 11, 4, amount=str(10000 * AERGO)),
+            T("namecreate", 12, 2, name=201, amount=str(AERGO)),
+            T("nameupdate", 11, 4, name=200, dest=10, amount=str(AERGO)),
+            T("setowner", 12, 2, dest=11)]
+    case("exec", gap_setup + [{"no": 10 + STAKE_DELAY, "validator": False, "txs": gaps}], "gaps",
+         cids={"100": [10, 1], "101": [12, 2]}, ids=[1, 2, 3, 10, 11, 12, 30, 100, 101])
+    # the validator path: one block per gap transaction, kept in the body by a faulty producer
+    case("chain", [{"txs": [dict(T("deploy", 10, 1, amount=str(5 * AERGO), plen=10, cid=100), vm=vmok(0)),
+                            T("namecreate", 11, 1, name=200, amount=str(AERGO))]}]
+         + [{"txs": [dict(g, force=True)]} for g in (gaps[0], gaps[1], gaps[3], gaps[6],
+                                                       T("nameupdate", 11, 3, name=200, dest=10, amount=str(AERGO)), gaps[8])],
+         "gaps", cids={"100": [10, 1]}, ids=[1, 2, 3, 10, 11, 12, 30, 100])
     # a FEEDELEGATION call that fails at run time (ERROR receipt: sender nonce advances, contract pays), then
     # the identical transaction again in the next block: must be rejected (nonce too low)
     fdrt = dict(T("feedeleg", 11, 1, to=100, plen=5), vm={"res": "rt", "fee": "1000", "transfers": [], "writes": []})
